@@ -211,6 +211,8 @@ class Program:
             raise AnalysisBroken('clang reported errors while parsing: %s' % self.parse_errors)
         self.extract_s = time.time() - t0
         self._subclasses = None
+        # experimental and OFF by default: inlining changes who-calls-what, which the ownership rules (C18.R4, C05.R3) read; see DESIGN I.7
+        self.inlined = inline_void_helpers(self) if os.environ.get('VERIF_INLINE') else []
 
     # ---- lookups -------------------------------------------------------------------------
     def fn(self, qname, sig=None):
@@ -260,6 +262,82 @@ class Program:
 
 
 # ---- generic tree walking ----------------------------------------------------------------
+def inline_void_helpers(prog):
+    """A block of statements that was extracted into a file-local `void` helper is the same code: a call statement `helper(a, b);` of a free, non-recursive void function defined
+    in the same file, whose parameters are neither assigned nor have their address taken and which has no `return` before its end, is replaced by the helper's body with the
+    parameters substituted by the argument expressions (locals of the helper renamed).  The helper itself stays in the program.  Returns the list of (caller, helper, line)."""
+    import copy
+    done = []
+    helpers = {}
+    for g in prog.functions.values():
+        if g.get('class') or g.get('ret') != 'void' or g.get('body') is None or not g['file'].endswith(('.cpp', '.cc')):
+            continue
+        pn = [pp['var']['name'] for pp in g['params'] if pp.get('var')]
+        if len(pn) != len(g['params']):
+            continue
+        body = g['body']
+        stmts = body.get('body', []) if body.get('k') == 'Block' else [body]
+        ok = len(stmts) <= 40
+        for i, st in enumerate(stmts):
+            for x in walk(st):
+                k = x.get('k')
+                if k == 'Return' and not (st is stmts[-1] and x is st and x.get('e') is None):
+                    ok = False
+                elif k == 'Assign' and x['a'].get('k') == 'Var' and x['a'].get('kind') == 'param':
+                    ok = False
+                elif k == 'Un' and x.get('op') in ('&', '++', '--') and x['e'].get('k') == 'Var' and x['e'].get('kind') == 'param':
+                    ok = False
+                elif k == 'Call' and x.get('callee') == g['qname']:
+                    ok = False
+                elif k in ('Goto', 'Label'):
+                    ok = False
+        if ok and stmts:
+            helpers[(g['qname'], os.path.basename(g['file']))] = (g, pn, [st for st in stmts if not (st.get('k') == 'Return')])
+    if not helpers:
+        return done
+
+    def subst(node, amap, suffix, locals_):
+        if isinstance(node, list):
+            return [subst(x, amap, suffix, locals_) for x in node]
+        if not isinstance(node, dict):
+            return node
+        if node.get('k') == 'Var':
+            if node.get('kind') == 'param' and node['name'] in amap:
+                return copy.deepcopy(amap[node['name']])
+            if node.get('kind') == 'local' and node['name'] in locals_:
+                n2 = dict(node)
+                n2['name'] = node['name'] + suffix
+                if 'id' in n2:
+                    n2['id'] = n2['id'] + suffix
+                return n2
+        return {k: subst(v, amap, suffix, locals_) for k, v in node.items()}
+
+    def rewrite(f, s, counter):
+        """returns the (possibly replaced) statement"""
+        if isinstance(s, list):
+            return [rewrite(f, x, counter) for x in s]
+        if not isinstance(s, dict):
+            return s
+        if s.get('k') == 'Expr' and isinstance(s.get('e'), dict) and s['e'].get('k') == 'Call' and (s['e'].get('callee'), os.path.basename(f['file'])) in helpers and s['e'].get('recv') is None:
+            g, pn, stmts = helpers[(s['e']['callee'], os.path.basename(f['file']))]
+            args = s['e'].get('args', [])
+            if g is not f and len(args) == len(pn) and all(a is not None and not any(x.get('k') in ('Call', 'Assign', 'New', 'Ctor') or (x.get('k') == 'Un' and x.get('op') in ('++', '--')) for x in walk(a)) for a in args):
+                counter[0] += 1
+                suffix = '__inl%d' % counter[0]
+                locals_ = {d['var']['name'] for st in stmts for x in walk(st) if x.get('k') == 'Decl' for d in x['decls']}
+                amap = dict(zip(pn, args))
+                done.append((f['qname'], g['qname'], s.get('l')))
+                return {'k': 'Block', 'l': s.get('l'), 'body': subst(copy.deepcopy(stmts), amap, suffix, locals_), 'inlined': g['qname']}
+            return s
+        return {k: (rewrite(f, v, counter) if k in ('body', 't', 'e', 'sub', 'handlers', 'cases') or (k == 'e' and s.get('k') in ('If',)) else v) for k, v in s.items()}
+    counter = [0]
+    for f in prog.functions.values():
+        if f.get('body') is None or not any(x.get('k') == 'Call' and (x.get('callee'), os.path.basename(f['file'])) in helpers for x in walk(f['body'])):
+            continue
+        f['body'] = rewrite(f, f['body'], counter)
+    return done
+
+
 def walk(node):
     """Pre-order over every dict node of a fact tree."""
     stack = [node]
